@@ -25,10 +25,12 @@ RULE = ("random cases: distributed_shampoo {x64 on, off} x layouts with 1 or 2 b
         "ratio >= 1e3 or a companion; distinct by hash of the case")
 ASSUMPTIONS = ["equality tolerance 2e-5 relative to the block's own update (float32 paths differ in reduction order); bitwise-equal count reported",
                "with grafting on, blocks of one parameter share a single positive factor (the parameter-level norm ratio), which is fitted and divided out"]
-DECIDING = ["block_comparisons", "companion_comparisons", "tf_block_comparisons", "cases_ds_blocks", "cases_ds_companion", "cases_tf"]
+DECIDING = ["block_comparisons", "companion_comparisons", "alone_comparisons", "tf_block_comparisons", "cases_ds_blocks", "cases_ds_companion", "cases_tf"]
 MIN_NONTRIVIAL = 30
 TIMEOUT = {"quick": 1500, "thorough": 7200}
-LAYOUTS = [((11, 4), 4), ((8, 6), 4), ((10, 7), 4), ((6, 3, 5), 3), ((9,), 4), ((12, 3), 4), ((5, 9), 4), ((7, 7), 3)]
+LAYOUTS = [((11, 4), 4), ((8, 6), 4), ((10, 7), 4), ((6, 3, 5), 3), ((9,), 4), ((12, 3), 4), ((5, 9), 4), ((7, 7), 3),
+           # small unblocked leaves: their statistics are smaller than the companion's, so only the companion run pads them
+           ((3, 2), 8), ((5, 3), 8), ((2, 3, 2), 8), ((6, 2), 4)]
 TF_LAYOUTS = [((12, 3), 4), ((8, 8), 4), ((4, 8), 4), ((6, 2, 3), 3), ((9, 6), 3), ((8,), 4), ((8, 2, 2), 4)]
 
 
@@ -112,9 +114,13 @@ def check_ds(c, rec):
     sep = run_ds(cfg, {"b%02d" % i: [h[sl] for h in hist] for i, sl in enumerate(slices)}, c["T"])
     comp = None
     if c["companion"]:
-      zshape = [(7, 9, 2), (13,), (16, 3), (5, 5)][int(rng.integers(0, 4))]
+      zshape = [(7, 9, 2), (13,), (16, 3), (5, 5), (8, 8), (block, block)][int(rng.integers(0, 6))]
       zs = 10 ** rng.uniform(-8, 8)
       comp = run_ds(cfg, {"w": hist, "z": [(rng.standard_normal(zshape) * zs).astype(np.float32) for _ in range(c["T"])]}, c["T"])
+    # one block optimised completely alone (its own optimizer instance: no other statistic to be padded to)
+    sizes = [min(tuple(sl_.stop - sl_.start for sl_ in sl)) for sl in slices]
+    jalone = int(np.argmin(sizes))
+    alone = run_ds(cfg, {"b": [h[slices[jalone]] for h in hist]}, c["T"])
   except Exception as e:  # pylint: disable=broad-except
     kind, where = H.classify_exception(e)
     if kind == "reject":
@@ -144,12 +150,22 @@ def check_ds(c, rec):
       return
     if comp is not None:
       rec.count("companion_comparisons")
-      d = np.max(np.abs(comp[t]["w"].astype(np.float64) - full[t]["w"].astype(np.float64))) / max(np.max(np.abs(full[t]["w"])), 1e-300)
+      # compare block by block so that a small-scale block is not hidden behind a large one
+      for sl in slices:
+        x, y = comp[t]["w"][sl].astype(np.float64), full[t]["w"][sl].astype(np.float64)
+        d = np.max(np.abs(x - y)) / max(np.max(np.abs(y)), 1e-300)
+        rec.maxi("companion_dev_over_tol", d / tol)
+        if d > tol:
+          rec.violation("companion-influences-parameter:ds", "step %d: update of a block of %s changes by %.3g rel when a companion leaf is added" % (t, shape, d), wit)
+          return
       rec.count("companion_bitwise_equal" if np.array_equal(comp[t]["w"], full[t]["w"]) else "companion_not_bitwise")
-      rec.maxi("companion_dev_over_tol", d / tol)
-      if d > tol:
-        rec.violation("companion-influences-parameter:ds", "step %d: update of %s changes by %.3g rel when a companion leaf is added" % (t, shape, d), wit)
-        return
+    rec.count("alone_comparisons")
+    w1, _ = cmp_blocks([full[t]["w"][slices[jalone]]], [alone[t]["b"]], c["graft"] != 0, rec, "ds_alone")
+    rec.maxi("ds_alone_dev_over_tol", w1 / tol)
+    if w1 > tol:
+      rec.violation("block-differs-from-same-tensor-alone:ds", "step %d: block %d of %s/%d differs by %.3g rel from the same tensor optimised alone (block scales %s)" % (
+          t, jalone, shape, block, w1, np.array2string(scales, precision=1)), wit)
+      return
   nt = (len(slices) >= 2 and scales.max() / scales.min() >= 1e3) or c["companion"]
   rec.case(util.key_hash(c), nt, sample=c)
   rec.count("cases_ds_blocks")
